@@ -20,7 +20,7 @@ from harness import common as C
 from harness import opt_driver as D
 
 PID = "C03"
-GEN = ["C03Consts"]
+GEN = ["C03Consts", "C01Flows", "C03Guards"]   # C01Flows: translator/gen_c01.py (shipped self-check flows)
 INTERNAL_ERROR = "I'm sorry, an internal error has occurred."
 
 PREAMBLE = """From Coq Require Import String List Bool.
